@@ -63,6 +63,39 @@ CHECKS = {
         note="Trusted: TLC, the syntactic design renderer, pysim as executor. Input/control/reset changes never coincide "
              "with a clock edge in one testbench write (a testbench race in pysim). Memory ports under wrappers are not "
              "in this design family."),
+    "C11": dict(
+        category="model_checking", design_ref="DESIGN.md section 4 (C11)",
+        technique="TLA+ memory semantics (AmMemOps: declarative per-bit contract + operational step function, AmMem state "
+                  "machine) model-checked by TLC with seeded mutants; edge-covering tours of the model graphs and seeded "
+                  "random configurations replayed on lib.memory.Memory; all executions validated by TLC against AmMemTrace",
+        text="TLC checks, for 9 (quick) / 23 (thorough) small memory configurations (unsigned, signed and aggregate rows; "
+             "depth 0-3 incl. non-powers of two; 0-2 read and write ports, comb/sync, two domains, transparency subsets, "
+             "granularity none/1/w/2) and every event sequence up to 5/7 events (coincident edges, testbench row reads "
+             "and writes), that an operational step function satisfies a per-bit declarative contract of the documented "
+             "semantics. The real Memory is bound to that contract by trace validation: every edge of each model graph and "
+             "64/1000 seeded random configurations x 250/300 events are executed in pysim and every recorded event (all "
+             "read-port outputs and all rows) is judged by TLC; each configuration also passes rtlil.convert.",
+        note="Trusted: TLC, pysim as executor, the recording testbench (inputs applied before a single Cat(clkA, clkB) clock "
+             "event; outputs and rows sampled after it). Unspecified behaviour (read beyond depth, colliding writes, "
+             "cross-domain read/write at a coincident edge, sync output before its first capture) is generated but not "
+             "asserted. Simulator/RTLIL agreement of memories is not evaluated (C04 excludes memories)."),
+    "C13": dict(
+        category="model_checking", design_ref="DESIGN.md section 4 (C13)",
+        technique="TLA+ spec (FifoObs contract, implementation-structured FifoAsyncImpl, FifoTrace) model-checked by TLC with "
+                  "mutants over every interleaving of the two clocks; edge-covering tours of the model graph and seeded "
+                  "clock-schedule walks replayed on AsyncFIFO/AsyncFIFOBuffered and validated by TLC; constructor sweep "
+                  "against the TLC-computed depth table",
+        text="TLC explores the full reachable graph of a model of AsyncFIFO/AsyncFIFOBuffered (Gray pointers, 2-flop "
+             "synchronisers, registered levels, output register) under every sequence of {write edge, read edge, both} x "
+             "(w_en, w_data, r_en) for depth 2/3/4 (quick) and 5 (thorough), data {0,1}, against the async contract plus "
+             "bounded liveness (K=8) and order / nothing-lost with bounded histories; five seeded design errors must fail. "
+             "The real classes are bound by trace validation: every edge of the model graph and seeded clock-ratio walks "
+             "(1:1 .. 1:7, jitter, coincident edges; depth up to 33, width 0..8, write-free tail) are executed in pysim with "
+             "truly coincident edges and each event is judged by TLC; a constructor sweep (depth 0..17 x exact_depth) "
+             "must elaborate and match the rounding table TLC computes.",
+        note="Trusted: TLC, pysim as executor, the recording testbench (one ctx.set per clock event, outputs sampled before "
+             "it). Data independence assumed; depths >= 8 by random walks only; synchronisers are ideal flops; the "
+             "write-domain reset is checked on the model only."),
     "C14": dict(
         category="model_checking", design_ref="DESIGN.md section 4 (C14)",
         technique="TLA+ builder specification of signature trees (Wiring) with Flip/Flatten/Compliant/ConnectOutcome "
